@@ -1166,7 +1166,11 @@ def unit_reader(ctx, harness, stats):
             else:
                 p = rng.randint(1, mlen - 1)
             p = min(max(p, 1), mlen - 1)
-            if dangling_ext_prefix(ms[j][0][:p]):
+            if not any(ms[j][0][:p]):
+                # (the "member" is a zero block of the header-damage class: what is left of it is a partial all-zero record, a clean end)
+                where = "inside-zero-block"
+                want_cut_end = 0
+            elif dangling_ext_prefix(ms[j][0][:p]):
                 # only complete extension records ('x'/'g'/'L'/'K') of the member are left and the header they belong to is missing:
                 # read_header takes the end of input at a record boundary for the end of the archive whatever it has accumulated
                 # (an archive needs no end marker) — noted in docs/design/C04.md, expected here as the code's documented behaviour
